@@ -205,6 +205,12 @@ func (e *FE) provablyNonNil(v ssa.Value) bool {
 				return true
 			}
 		}
+	case *ssa.Extract:
+		if call, ok := x.Tuple.(*ssa.Call); ok {
+			if a := e.passThroughArg(call, x.Index); a != nil {
+				return e.provablyNonNil(a)
+			}
+		}
 	case *ssa.UnOp:
 		if x.Op == token.MUL {
 			if g, ok := x.X.(*ssa.Global); ok && e.nonNil[g] {
@@ -530,6 +536,13 @@ func (e *FE) condFacts(v ssa.Value, truth bool, depth int) Facts {
 		}
 		return res
 	}
+	if isBoolType(v.Type()) {
+		t := e.c.Term(v)
+		if truth {
+			return emptyFacts().with("passed:" + t)
+		}
+		return emptyFacts().with("passed:!" + t)
+	}
 	return emptyFacts()
 }
 
@@ -738,4 +751,33 @@ func (e *FE) recvPath(call ssa.CallInstruction) string {
 		return ""
 	}
 	return e.c.AddrPath(cc.Args[0])
+}
+
+// passThroughArg: when every return of the (static, library) callee returns its parameter k unchanged as
+// result idx, the call's result idx is the corresponding argument.
+func (e *FE) passThroughArg(call *ssa.Call, idx int) ssa.Value {
+	sc := call.Call.StaticCallee()
+	if sc == nil || !e.c.IsLib(sc) {
+		return nil
+	}
+	k := -1
+	for _, b := range sc.Blocks {
+		ret, ok := b.Instrs[len(b.Instrs)-1].(*ssa.Return)
+		if !ok || len(ret.Results) <= idx {
+			continue
+		}
+		p, ok := ret.Results[idx].(*ssa.Parameter)
+		if !ok {
+			return nil
+		}
+		pi := paramIndex(p)
+		if k >= 0 && k != pi {
+			return nil
+		}
+		k = pi
+	}
+	if k < 0 || k >= len(call.Call.Args) {
+		return nil
+	}
+	return call.Call.Args[k]
 }
